@@ -225,6 +225,7 @@ def run(ctx):
             i += 1
             if ctx.mine(i):
                 compare(ctx, make_case("Task", copy.deepcopy(rs), copy.deepcopy(cs), seq), "exhaustive")
+    i = execution_timeout_cases(ctx, i)
     # sampled part
     n = ctx.pick(2500, 100000)
     for k in range(n):
@@ -248,6 +249,50 @@ def run(ctx):
         compare(ctx, make_case(kind, rs, cs, seq, timeout=rng.randint(2, 6) if with_to else None, chained=chained, inp=inp, map_opts=map_opts))
 
 
+def execution_timeout_cases(ctx, i0):
+    """The execution time-out is not an error of the state: no Retrier or Catcher (not even States.ALL / States.Timeout) may take it.  The retried Task is the start
+    state, its worker never answers; the execution's TimeoutSeconds expires before the Task's own (or at the very same instant: whatever the tie means, nothing
+    may be invoked after the execution's deadline and the execution cannot end later than it)."""
+    i = i0
+    for x in (2, 3, 5):
+        for task_to in (x, x + 2, None):
+            for names in (["States.ALL"], ["States.Timeout"], ["States.TaskFailed", "States.Timeout"]):
+                for how in ("retry", "catch", "retry+catch"):
+                    i += 1
+                    if not ctx.mine(i):
+                        continue
+                    ctx.evaluation(); ctx.count("execution_timeout_cases")
+                    r = {"Type": "Task", "Resource": G.FN_PREFIX + "t", "ResultPath": "$.res", "Next": "Z"}
+                    if task_to:
+                        r["TimeoutSeconds"] = task_to
+                    if "retry" in how:
+                        r["Retry"] = [{"ErrorEquals": names, "IntervalSeconds": 1, "MaxAttempts": 2, "BackoffRate": 1.0}]
+                    if "catch" in how:
+                        r["Catch"] = [{"ErrorEquals": names, "Next": "Caught", "ResultPath": "$.e"}]
+                    asl = {"TimeoutSeconds": x, "StartAt": "R", "States": {"R": r, "Caught": {"Type": "Task", "Resource": G.FN_PREFIX + "v", "Next": "Z"}, "Z": {"Type": "Succeed"}}}
+                    scn = {"machines": {"m": {"asl": asl}}, "funcs": {"t": ["silent"], "v": ["slow", 1]}, "starts": [{"machine": "m", "name": "e", "input": {"k": 1}}]}
+                    run = S.execute(scn, seed=ctx.seed, monitors=("notes",), settle=False)
+                    try:
+                        st, out, err, t = run.outcomes.get(run.execs[0], ("NONE", None, None, None))
+                        reqs = sorted((round(q["t"] - EPOCH0, 6), fn) for fn, rs in run.requests.items() for q in rs)
+                        ctx.count("compared"); ctx.distinct("cases", asl); ctx.nontrivial(asl)
+                        problems = []
+                        if [fn for _, fn in reqs] != ["t"]:
+                            problems.append("number-of-invocations")
+                        if any(tt > x + 1e-6 for tt, _ in reqs):
+                            problems.append("invocation-after-the-execution-deadline")
+                        if not (st == "FAILED" and err == "States.Timeout"):
+                            problems.append("outcome")
+                        elif t is not None and abs((t - EPOCH0) - x) > 1e-6:
+                            problems.append("terminal-instant")
+                        if problems:
+                            ctx.violation("execution-timeout-taken-by-a-retrier-or-catcher:" + "+".join(problems),
+                                          S.witness_of(run, dict(engine=[st, out, err], engine_requests=reqs, terminal_t=(t - EPOCH0) if t else None, family="execution-timeout")), None)
+                    finally:
+                        S.close(run)
+    return i
+
+
 WITNESS = make_case("Task", [{"ErrorEquals": ["E1"], "IntervalSeconds": 2, "MaxAttempts": 2, "BackoffRate": 1.5},
                              {"ErrorEquals": ["E2"], "IntervalSeconds": 3, "MaxAttempts": 2, "BackoffRate": 2.0}], [],
                     [["err", "E1", "x"], ["err", "E2", "x"], ["err", "E1", "x"], ["ok", 1]])
@@ -266,6 +311,13 @@ def witnesses(ctx):
 def replay(ctx, doc):
     w = doc["witness"]
     scn = w["scenario"]
+    if w.get("family") == "execution-timeout":
+        run = S.execute(scn, seed=w.get("seed", 0), monitors=("notes",), settle=False)
+        print("machine:", json.dumps(scn["machines"]["m"]["asl"]))
+        print("engine:", run.outcomes, "requests:", sorted((q["t"] - EPOCH0, fn) for fn, rs in run.requests.items() for q in rs))
+        print("expected: one request to t, none after the execution's TimeoutSeconds, FAILED States.Timeout at the deadline")
+        S.close(run)
+        return
     case = dict(asl=scn["machines"]["m"]["asl"], input=scn["starts"][0]["input"], funcs=scn["funcs"], scenario=scn,
                 kind=scn["machines"]["m"]["asl"]["States"]["R"]["Type"])
     print("reference:", reference(case)[0], [(r["t"], r["fn"]) for r in reference(case)[0].requests])
